@@ -103,6 +103,8 @@ type PipeCfg struct {
 	Bisync      bool
 	Mode        string // sync | pipeline | parallel
 	Parallelism int
+	// cluster target
+	ClusterAddrs []string
 }
 
 func (c PipeCfg) String() string {
@@ -196,6 +198,14 @@ func (c PipeCfg) outputConfig(runID, cpName string) syncer.RedisOutputConfig {
 		MaxProtoBulkLen:            512 * 1024 * 1024,
 	}
 	oc.Stats.DisableLog = true
+	if len(c.ClusterAddrs) > 0 {
+		oc.Redis.Addresses = c.ClusterAddrs
+		oc.Redis.Type = config.RedisTypeCluster
+		oc.Redis.Otype = config.RedisTypeCluster
+		oc.Redis.ClusterOptions = &config.RedisClusterOptions{HandleMoveErr: true, HandleAskErr: true}
+		oc.Redis.KeepAlive = 8
+		oc.Redis.AliveTime = time.Minute
+	}
 	if c.Bisync {
 		oc.BisyncEnabled = true
 		oc.ReplayMode = config.ReplayMode(c.Mode)
